@@ -298,7 +298,10 @@ impl SvgElement {
                 [elem] => {
                     events.push(OutputEvent::Start(elem.clone()));
                     if let Some(value) = &elem.text_content {
-                        events.push(OutputEvent::Text(value.clone()));
+                        // generated text: escape here, as Text events are written as-is
+                        events.push(OutputEvent::Text(
+                            quick_xml::escape::escape(value.as_str()).into_owned(),
+                        ));
                     } else {
                         return Err(SvgdxError::InvalidData(
                             "Text element should have content".to_owned(),
@@ -317,7 +320,9 @@ impl SvgElement {
                         // misalignment - see https://stackoverflow.com/q/41364908
                         events.push(OutputEvent::Start(elem.clone()));
                         if let Some(value) = &elem.text_content {
-                            events.push(OutputEvent::Text(value.clone()));
+                            events.push(OutputEvent::Text(
+                                quick_xml::escape::escape(value.as_str()).into_owned(),
+                            ));
                         } else {
                             return Err(SvgdxError::InvalidData(
                                 "Text element should have content".to_owned(),
